@@ -3,7 +3,10 @@
 From stdpp Require Import gmap strings.
 From EV Require Import Base.Str Model.Reply Model.Dispatch Model.TableTypes Model.KeyFuncs Model.Acl Model.AclWorld.
 From EV Require Import Spec.SpecAcl Proofs.AclProofs Proofs.TableObligations Gen.CmdTable Gen.KeyExtract.
+From EV Require Import Model.Value Model.Keyspace Model.Prog Model.CmdGeneric.
+From EV Require Import Proofs.KeyspaceLemmas Proofs.KeyCover Proofs.KeyCoverCmds Proofs.KeyCoverTheorems.
 Local Open Scope string_scope.
+Local Open Scope list_scope.
 
 (** For every ACL state (users, rule lists, connections, require-pass or not), every connection,
     every command row / sub-command row and every argument vector, for every glob matcher: the model
@@ -56,12 +59,119 @@ Theorem C06_key_extract_agrees :
   forall g r, In g kx_rows -> In r g -> key_extract (kr_name r) (kr_sub r) (kr_argv r) = kr_res r.
 Proof. exact key_extract_agrees. Qed.
 
+(** * Key coverage: the keys the gate checks are the keys the command touches.
+
+    [within R W p] ([Proofs/KeyCover.v]): every key the program [p] passes to a reading primitive
+    ([KeysExist], [GetExpiry], [GetValues]) satisfies [R], every key it passes to a writing primitive
+    ([SetValues], [SetExpiry], [DeleteKey]) satisfies [W], whatever the primitives answer; a program
+    that flushes is within nothing.  For every handler of [handler_of] (list, hash, set, sorted set,
+    generic, string — all modelled data commands) except FLUSHDB / FLUSHALL, and every argument vector
+    whose first word is the command's name: when the key function ([key_extract], equal to the Go
+    [KeyExtractionFunc]s on the regenerated rows by [C06_key_extract_agrees]) reports channels / read
+    keys / write keys, the handler reads only read or write keys and writes only write keys ... *)
+Theorem C06_keys_cover :
+  forall name h argv ch rd wr,
+    handler_of name = Some h -> lower (arg argv 0) = name -> is_flush name = false ->
+    key_extract name "" argv = KxOk ch rd wr ->
+    within_l (rd ++ wr) wr (h argv).
+Proof. exact keys_cover. Qed.
+
+(** ... when it reports an error (wrong arity) the handler touches no key at all ... *)
+Theorem C06_keys_cover_error :
+  forall name h argv,
+    handler_of name = Some h -> lower (arg argv 0) = name -> is_flush name = false ->
+    key_extract name "" argv = KxErr ->
+    within (fun _ => False) (fun _ => False) (h argv).
+Proof. exact keys_cover_error. Qed.
+
+(** ... and it does one or the other (no panic, no missing function). *)
+Theorem C06_keys_cover_total :
+  forall name h argv,
+    handler_of name = Some h -> lower (arg argv 0) = name -> is_flush name = false ->
+    (exists ch rd wr, key_extract name "" argv = KxOk ch rd wr) \/ key_extract name "" argv = KxErr.
+Proof. exact keys_cover_total. Qed.
+
+(** What [within] means for the keyspace (no memory limit: eviction is C08's subject).  Write half:
+    entries of other databases and of keys not satisfying [W] are the same before and after. *)
+Theorem C06_within_writes_only :
+  forall A (R W : string -> Prop) (p : prog A), within R W p -> forall d s,
+    st_maxmem s = 0%Z ->
+    (forall d' k, d' <> d \/ ~ W k -> lentry (fst (run_seq d p s)) d' k = lentry s d' k) /\
+    st_now (fst (run_seq d p s)) = st_now s /\ st_maxmem (fst (run_seq d p s)) = 0%Z.
+Proof. exact @within_writes_only. Qed.
+
+(** Read half: reply and effect are a function of the keys satisfying [R] in the selected database. *)
+Theorem C06_within_frame :
+  forall A (R W : string -> Prop) (p : prog A),
+    within R W p -> (forall k, W k -> R k) -> forall d s1 s2,
+    keys_agree R d s1 s2 -> st_maxmem s1 = 0%Z ->
+    snd (run_seq d p s1) = snd (run_seq d p s2) /\
+    keys_agree R d (fst (run_seq d p s1)) (fst (run_seq d p s2)) /\
+    st_maxmem (fst (run_seq d p s1)) = 0%Z.
+Proof. exact @within_frame. Qed.
+
+(** Both, for the handlers: only reported write keys of the selected database change. *)
+Theorem C06_keys_cover_effect :
+  forall name h argv d s,
+    handler_of name = Some h -> lower (arg argv 0) = name -> is_flush name = false ->
+    st_maxmem s = 0%Z ->
+    forall d' k, lentry (fst (run_seq d (h argv) s)) d' k <> lentry s d' k ->
+      d' = d /\ exists ch rd wr, key_extract name "" argv = KxOk ch rd wr /\ k ∈ wr.
+Proof. exact keys_cover_effect. Qed.
+
+(** The gate: a data command allowed on a connection (authentication required) reads only keys
+    matched by a read or write pattern of the connection's user and writes only keys matched by a write
+    pattern; so only such keys of the connection's database change, and the reply does not depend on
+    any key the user may not read. *)
+Theorem C06_gate_keys_cover :
+  forall glob_match a c argv p h,
+    lookup_cmd argv = LCmd p None -> handler_of (cr_name p) = Some h -> is_flush (cr_name p) = false ->
+    a_require a = true -> authorize glob_match a c p None argv = true ->
+    exists r, a_conns a !! c = Some r /\ c_auth r = true /\
+      within (may_read glob_match (deref a (c_user r))) (may_write glob_match (deref a (c_user r))) (h argv).
+Proof. exact gate_keys_cover. Qed.
+
+Theorem C06_gate_effect_permitted :
+  forall glob_match a c argv p h d s,
+    lookup_cmd argv = LCmd p None -> handler_of (cr_name p) = Some h -> is_flush (cr_name p) = false ->
+    a_require a = true -> authorize glob_match a c p None argv = true -> st_maxmem s = 0%Z ->
+    exists r, a_conns a !! c = Some r /\ c_auth r = true /\
+      (forall d' k, lentry (fst (run_seq d (h argv) s)) d' k <> lentry s d' k ->
+         d' = d /\ may_write glob_match (deref a (c_user r)) k) /\
+      (forall s2, keys_agree (may_read glob_match (deref a (c_user r))) d s s2 ->
+         snd (run_seq d (h argv) s) = snd (run_seq d (h argv) s2)).
+Proof. exact gate_effect_permitted. Qed.
+
+(** Finding KF-C06-flush-keyless: FLUSHDB and FLUSHALL report no key and are within no key set — a
+    user whose key patterns match nothing but whose command rules include them empties the dataset. *)
+Theorem C06_flush_keys_cover_refuted :
+  forall name, name = "flushdb" \/ name = "flushall" ->
+  exists h argv, handler_of name = Some h /\ lower (arg argv 0) = name /\
+    key_extract name "" argv = KxOk [] [] [] /\ ~ within_l ([] ++ []) [] (h argv).
+Proof. exact flush_keys_cover_refuted. Qed.
+
+Theorem C06_flush_effect_refuted :
+  is_Some (lentry flush_witness_state 0 "k") /\
+  lentry (fst (run_seq 0 (handle_flush ["flushdb"]) flush_witness_state)) 0 "k" = None /\
+  lentry (fst (run_seq 1 (handle_flush ["flushall"]) flush_witness_state)) 0 "k" = None.
+Proof. exact flush_effect_refuted. Qed.
+
 Print Assumptions C06_authorize_iff_allowed.
 Print Assumptions C06_denied_no_effect.
 Print Assumptions C06_not_allowed_no_effect.
 Print Assumptions C06_allowed_runs_exec.
 Print Assumptions C06_exempt_exact.
 Print Assumptions C06_key_extract_agrees.
+Print Assumptions C06_keys_cover.
+Print Assumptions C06_keys_cover_error.
+Print Assumptions C06_keys_cover_total.
+Print Assumptions C06_within_writes_only.
+Print Assumptions C06_within_frame.
+Print Assumptions C06_keys_cover_effect.
+Print Assumptions C06_gate_keys_cover.
+Print Assumptions C06_gate_effect_permitted.
+Print Assumptions C06_flush_keys_cover_refuted.
+Print Assumptions C06_flush_effect_refuted.
 
 (** Non-vacuity: a user with read keys a* and all commands; MGET with one permitted and one forbidden
     key is denied in both orders, with two permitted keys it is allowed. *)
@@ -80,3 +190,11 @@ Example ex_unauthenticated :
       [["GET"; "a1"]; ["AUTH"; "x"]; ["HELLO"]; ["ECHO"; "x"]; ["ACL"; "WHOAMI"]]
   = [DDeny; DAllow; DAllow; DAllow; DDeny].
 Proof. vm_compute. reflexivity. Qed.
+
+(** Non-vacuity of key coverage: what the key functions report for three vectors (keys, keys before
+    the first modifier, arity error). *)
+Example ex_keys_cover :
+  key_extract "sdiffstore" "" ["SDIFFSTORE"; "a9"; "a1"; "a2"] = KxOk [] ["a1"; "a2"] ["a9"]
+  /\ key_extract "zunionstore" "" ["zunionstore"; "d"; "x"; "y"; "WEIGHTS"; "1"; "2"] = KxOk [] ["x"; "y"] ["d"]
+  /\ key_extract "lpop" "" ["lpop"] = KxErr.
+Proof. vm_compute. auto. Qed.
